@@ -5,6 +5,7 @@ import Proofs.C17.Fn
 import Proofs.C17.Svc
 import Proofs.C17.Manager
 import Proofs.C17.FW
+import Proofs.C17.System
 /-!
 # C17 — property theorems (statements; proofs live in `Proofs/C17*.lean`)
 
@@ -214,6 +215,43 @@ theorem manager_listeners (n : Nat) (hn : 0 < n) (evs : List MEv) (hl : LegalFee
   have h := listeners_of_minv _ _ (minv_run _ _ evs (minv_init n hn) hl)
   rw [viewsAfter_length, List.length_replicate] at h
   exact h
+
+/-! ### services and manager composed
+
+`System`: n real service machines (any nil-function configuration each) whose first listener is the
+manager's, plus the manager; events = any event of any service, the hand-over of a service's next
+notification to the manager, and the manager's own listeners — in ANY interleaving. No hypothesis on
+the feed is left: it is discharged by the service theorems. -/
+
+/-- In every reachable state of the composed system the manager is healthy exactly while every service
+is Running and stopped exactly when every service is terminal, *as far as the manager has been told*
+(`viewOf`); each failed service has been reported once; and a service whose notifications have all been
+handed over is seen in its real state. -/
+theorem system_manager_tracks_services (cfgs : List (Bool × Bool × Bool)) (hne : cfgs ≠ []) (evs : List SysEv) :
+    let y := (System.init cfgs).run evs
+    (y.mgr.state = .healthy ↔ ∀ s ∈ y.svcs, viewOf s = .running) ∧
+    (y.mgr.state = .stopped ↔ ∀ s ∈ y.svcs, (viewOf s).terminal = true) ∧
+    (∀ j (h : j < y.svcs.length), y.mgr.log.count (.failure j) = if viewOf y.svcs[j] = .failed then 1 else 0) ∧
+    (∀ s ∈ y.svcs, nextForManager s = none → viewOf s = s.st) ∧
+    y.mgr.bad = [] ∧ y.mgr.healthyCloses ≤ 1 ∧ y.mgr.stoppedCloses ≤ 1 :=
+  system_facts _ (yinv_run _ evs (yinv_init cfgs hne))
+
+/-- Hence, once every notification has been handed over: healthy iff all services really are Running,
+stopped iff all really are Terminated or Failed. -/
+theorem system_healthy_iff_all_running_when_drained (cfgs : List (Bool × Bool × Bool)) (hne : cfgs ≠ [])
+    (evs : List SysEv) (hd : ∀ s ∈ ((System.init cfgs).run evs).svcs, nextForManager s = none) :
+    let y := (System.init cfgs).run evs
+    (y.mgr.state = .healthy ↔ ∀ s ∈ y.svcs, s.st = .running) ∧
+    (y.mgr.state = .stopped ↔ ∀ s ∈ y.svcs, s.st.terminal = true) :=
+  system_drained _ (yinv_run _ evs (yinv_init cfgs hne)) hd
+
+/-- non-vacuity: two services started, run, notifications handed over in interleaved order: healthy and drained. -/
+example :
+    let y := (System.init [(true, true, true), (false, true, true)]).run
+      [.svc 0 .startAsync, .svc 1 .startAsync, .svc 1 .tau, .svc 1 .tau, .svc 1 .tau, .svc 1 .tau, .svc 0 .tau,
+       .handover 1, .svc 0 (.startRet none), .svc 0 .tau, .svc 0 .tau, .handover 0, .handover 1, .svc 0 .tau, .handover 0]
+    y.mgr.state = .healthy ∧ y.svcs.map (·.st) = [.running, .running] ∧ y.svcs.map nextForManager = [none, none] := by
+  decide
 
 /-! ### failure watcher -/
 
